@@ -62,6 +62,8 @@ type Pool struct {
 	CaseTimeout time.Duration // real-time watchdog per case (a hang, never a verdict by itself)
 	ASLimitGB   int           // RLIMIT_AS for workers, 0 = none
 	Env         []string
+	// Abort, if set, is polled before each case is dispatched; when it returns true the remaining cases are skipped.
+	Abort func() bool
 
 	workers []*worker
 }
@@ -238,6 +240,9 @@ func (p *Pool) Run(cases []any, onResult func(i int, out json.RawMessage, crash 
 				mu.Unlock()
 				if i >= len(enc) {
 					return
+				}
+				if p.Abort != nil && p.Abort() {
+					continue
 				}
 				out, crash := p.exec1(wi, enc[i])
 				flaky := false
